@@ -23,6 +23,9 @@ TRUSTED_BASE = [
     "url.PathUnescape; connection upgrades are outside the model",
 ]
 ASSUMPTIONS = [
+    "a response stream cut in the middle (net/http race between the server closing the request body and the outgoing "
+    "transport's last read of it, seen only under CPU starvation) is re-sent by the rig up to 3 times; the last observation "
+    "counts, so a reproducible cut is still reported; such retries are counted in the evidence (label rig:retried)",
     "the upstream reads identity headers as kube-apiserver does: first Impersonate-User value (empty = no impersonation), "
     "Impersonate-Group values in order, Impersonate-Extra-<k> with k lower-cased then percent-decoded",
     "extra keys are compared modulo ASCII case and extra (key,value) pairs as a multiset (header names are case-insensitive; "
@@ -233,6 +236,8 @@ def stats(case, obs):
     labs = ["family:" + f for f in sorted(_families(case))] or ["family:none"]
     if L.panic_obs(obs):
         return labs + ["outcome:panic"]
+    if obs.get("retries"):
+        labs.append("rig:retried")
     if not obs.get("reached"):
         return labs + ["outcome:rejected-by-net/http"]
     if obs.get("upstream"):
